@@ -35,7 +35,8 @@ def feasible_ctx_kinds(rows, for_query, contextual_series_ok):
     d = len(rows[0])
     kinds = ["list", "ndarray_c", "ndarray_f", "strided", "transposed", "dataframe", "ndarray_float"]
     if all(float(v).is_integer() for r in rows for v in r):
-        kinds.append("ndarray_int")
+        kinds += ["ndarray_int", "ndarray_int8", "ndarray_int32"]
+    kinds.append("ndarray_float32")       # grid values are exactly representable
     if contextual_series_ok and ((d == 1) or (n == 1 and d > 1)):
         kinds.append("series")
     return kinds
@@ -55,6 +56,8 @@ def render_ctx(rows, kind):
         return np.array(rows, dtype=np.int64)
     if kind == "ndarray_float":
         return np.array(rows, dtype=np.float64)
+    if kind in ("ndarray_int8", "ndarray_int32", "ndarray_float32"):
+        return np.array(rows, dtype=getattr(np, kind.split("_")[1]))
     if kind == "strided":
         big = np.zeros((a.shape[0] * 2, a.shape[1] * 2), dtype=a.dtype)
         big[::2, ::2] = a
@@ -78,6 +81,10 @@ def render_vec(v, kind):
         return np.array(v, dtype=np.int64)
     if kind == "ndarray_float":
         return np.array(v, dtype=np.float64)
+    if kind in ("ndarray_int8", "ndarray_int16", "ndarray_int32", "ndarray_float32", "ndarray_bool"):
+        return np.array(v, dtype=getattr(np, kind.split("_")[1] if kind != "ndarray_bool" else "bool_"))
+    if kind == "series_int8":
+        return pd.Series(np.array(v, dtype=np.int8), index=range(100, 100 + len(v)))
     if kind == "series":
         return pd.Series(list(v), index=range(100, 100 + len(v)))
     raise ValueError(kind)
@@ -101,6 +108,15 @@ def plan_st(draw, tier):
             rk = ["list", "ndarray_float", "series"]
             if all(float(x).is_integer() for x in op[2]):
                 rk.append("ndarray_int")
+                if all(-100 <= x <= 100 for x in op[2]):      # compact integer dtypes the values fit into
+                    rk += ["ndarray_int8", "ndarray_int16", "ndarray_int32", "series_int8"]
+            if all(x in (0, 1) for x in op[2]):
+                rk.append("ndarray_bool")
+            if twin.is_deterministic(cfg):
+                # single precision rewards keep the arithmetic in single precision (means are rounded to 24 bits):
+                # compared with 1e-5 relative tolerance, and only under deterministic policies because a sampler is
+                # not a continuous function of its parameters
+                rk.append("ndarray_float32")
             r["rew"] = draw(st.sampled_from(rk))
             if op[3] is not None:
                 r["ctx"] = draw(st.sampled_from(feasible_ctx_kinds(op[3], False, True)))
@@ -202,12 +218,19 @@ def evaluate(plan, ctx):
                             bucket="unexpected_exception:%s:%s" % (name, oa[1]))
         if name in ops.TRAIN_OPS:
             fitted = True
-        if not ops.outputs_equal(oa, ob):
+        f32 = any(rr.get("rew") == "ndarray_float32" for rr in plan["renders"][:i + 1])
+        tol = 1e-5 if f32 else 0.0
+        same_out = ops.outputs_equal(oa, ob, tol, tol)
+        if not same_out and f32 and name == "predict" and not (ops.is_exc(oa) or ops.is_exc(ob)):
+            same_out = True       # a prediction may flip when two single-precision expectations are within rounding
+            ev.append("float32_predict_not_compared")
+        if not same_out:
             raise Violation("container_dependence", "op %d %s rendered as %r: lists gave %s, containers gave %s"
                             % (i, ops.short(op, 100), r, ops.short(oa), ops.short(ob)),
                             bucket="container_dependence:%s" % "+".join(sorted(set(r.values()))))
         for v in r.values():
-            if v in ("ndarray_f", "strided", "transposed", "dataframe", "series"):
+            if v in ("ndarray_f", "strided", "transposed", "dataframe", "series", "series_int8") or v[-1:].isdigit() \
+                    or v == "ndarray_bool":
                 nt = True
             ev.append("render=" + v)
     if snap(members[1:]) != s0[1:]:
